@@ -209,7 +209,7 @@ package riscv
 //@   ensures[nonnil] err == nil ==> arg != nil && argRaw != nil
 //@   ensures[rawrange] err == nil ==> argRaw.Rd < 32 && argRaw.Rs1 < 32 && argRaw.Rs2 < 32
 //@   ensures[asinv] foreach k in keys(_AOpContextTable) where isa(k) != 0 && isa_fmt(k) != 9 :: err == nil && as == k ==> isa_match(k, x)
-//@   property C17
+//@   property C17, C20
 
 //@ spec imm_of(k abi.As, w uint32) int32 :=
 //@   ite(isa_fmt(k) == 5, int32(d_immU(w)), ite(isa_fmt(k) == 6, int32(d_immJ(w)), ite(isa_fmt(k) == 4, int32(d_immB(w)),
